@@ -80,6 +80,7 @@ let spec input obs_s =
         | Some (sr : Store.src) -> go (i :: acc) (n + 1) (int_of_n sr.Store.s_prev) | None -> i :: acc in
       go [] 0 tip in
     let last_contain = ref (-1) in       (* index of the last command during which a forbidden / contradicting header was delivered *)
+    let contain_tip = ref (-1) in
     Stdlib.List.iteri (fun step_idx step -> let before = !n_forb + !n_contra in Stdlib.List.iter (fun (e : obs_event) ->
         let p = e.peer in
         let gs = g_effs e.effs in
@@ -214,7 +215,7 @@ let spec input obs_s =
         if Stdlib.List.mem "P" e.effs then fail "panic" e.label;
         Hashtbl.replace peer_state p e.state;
         prev_state := e.state) step;
-        if !n_forb + !n_contra > before then last_contain := step_idx) o.steps;
+        if !n_forb + !n_contra > before then begin last_contain := step_idx; contain_tip := tip_of !prev_state end) o.steps;
     (* ---- last clause of C07: after either event the service still converges on an honest peer's chain.
        Evaluated for the default engine, and for the experimental one with respect to honest peers whose session starts
        after the last containment event (it has no second peer to turn to by design), on scripts that end with
@@ -246,7 +247,16 @@ let spec input obs_s =
         incr n_conv;
         let offers = Stdlib.List.map (fun (_, (ch, _, _, _)) -> Stdlib.List.map (src_of u) !ch) honest in
         let gw = Work.calc_work sc.hist.gpl.Store.p_bits in
-        if not (SyncSpec.spec_converged gw gw offers rows (n_of_int o.tip)) then
+        (* "own" of spec_converged: the work the store already had when the misbehaving sender was dropped - the valid
+           headers it delivered BEFORE the forbidden / contradicting one stay stored, and an honest peer whose chain
+           carries less work than that has nothing the service must fetch.  Measured at the nearest ancestor-or-self
+           of the tip at that moment that is neither forbidden-descended nor checkpoint-contradicting. *)
+        let work_of' i = (match Hashtbl.find_opt u i with Some (sr : Store.src) -> zt_of_z (Work.calc_work sr.Store.s_pl.Store.p_bits) | None -> Z.zero) in
+        let gid' = int_of_n sc.hist.gid in
+        let rec cum' n i = if n > 100000 || i = gid' || i < 0 then zt_of_z gw else Z.add (work_of' i) (cum' (n + 1) (parent_of i)) in
+        let rec good_anc n i = if n > 100000 || i = gid' || i < 0 then gid' else if bad_anywhere i then good_anc (n + 1) (parent_of i) else i in
+        let own = z_of_zt (cum' 0 (good_anc 0 !contain_tip)) in
+        if not (SyncSpec.spec_converged gw own offers rows (n_of_int o.tip)) then
           fail "not-converged-after-containment" (Printf.sprintf "tip=%d honest peers=%s" o.tip
                                                     (Stdlib.String.concat "," (Stdlib.List.map (fun (q, _) -> string_of_int q) honest)))
       end
